@@ -172,6 +172,11 @@ func (ti *tableInterp) run(fn *ssa.Function, args []TVal, depth int) (TVal, erro
 		}
 		if cst, ok := v.(*ssa.Const); ok {
 			if cst.Value == nil {
+				if _, isPtr := cst.Type().Underlying().(*types.Pointer); isPtr {
+					// `var t OrderedMap` stored as an entry: not "no classification" (an untyped
+					// nil) but a nil MAP - the lookup descends into it and calls Get on nil
+					return TVal{Kind: "nilptr"}, nil
+				}
 				return TVal{Kind: "nil"}, nil
 			}
 			if n, ok := cst.Type().(*types.Named); ok && n.Obj().Name() == "OperatorType" {
@@ -449,6 +454,8 @@ func (t *Tables) LeafName(v TVal) string {
 		return fmt.Sprintf("OperatorType(%d)", v.Leaf)
 	case "nil":
 		return "nil"
+	case "nilptr":
+		return "nil-map-pointer"
 	case "map":
 		return "submap"
 	}
